@@ -232,17 +232,27 @@ Definition delegate : script facts :=
   ++ [ Write "delegation/stakers_by_operator" (fun s => fget "staker.listed" s =? 0)
          (fun s => fset "staker.listed" 1 s) ].
 
-(* ValidateUndelegationAmount: the share that will be removed *)
-Definition und_share (s : facts) : Z :=
-  let sh := shares_from (fget "amt" s) s in
-  let tol := shares_from 1 s in
-  if fget "dl.share" s - sh <? tol then fget "dl.share" s else sh.
-(* RemoveShareFromOperator: token amount removed (the last share takes everything; otherwise
-   TokensFromShares = banker's Quo then TruncateInt — transcribed with Base.IntDec-style arithmetic inline) *)
+(* TokensFromShares = banker's Quo then TruncateInt (Base.IntDec-style arithmetic inline) *)
 Definition chop_round (d : Z) : Z :=
   let q := d / P18 in let r := d mod P18 in
   if r =? 0 then q else if 2 * r <? P18 then q else if P18 <? 2 * r then q + 1
   else if Z.even q then q else q + 1.
+Definition tokens_from (sh : Z) (s : facts) : Z :=
+  if fget "oa.share" s =? 0 then 0
+  else chop_round ((sh * fget "oa.amt" s * (P18 * P18)) / fget "oa.share" s) / P18.
+(* ValidateUndelegationAmount (after fix 56b99a6): the shares computed for the amount may exceed the staker's shares by
+   rounding dust; a request within the staker's reported position is then an undelegation of the whole position *)
+Definition und_within (s : facts) : bool :=
+  (shares_from (fget "amt" s) s <=? fget "dl.share" s) ||
+  ((fget "dl.share" s <=? fget "oa.share" s) && (fget "amt" s <=? tokens_from (fget "dl.share" s) s)).
+(* the share that will be removed *)
+Definition und_share (s : facts) : Z :=
+  let sh := shares_from (fget "amt" s) s in
+  let tol := shares_from 1 s in
+  if fget "dl.share" s <? sh then fget "dl.share" s
+  else if fget "dl.share" s - sh <? tol then fget "dl.share" s else sh.
+(* RemoveShareFromOperator: token amount removed (the last share takes everything; otherwise
+   TokensFromShares = banker's Quo then TruncateInt — transcribed with Base.IntDec-style arithmetic inline) *)
 Definition und_token (s : facts) : Z :=
   let sh := und_share s in
   if fget "oa.share" s =? sh then fget "oa.amt" s
@@ -255,7 +265,7 @@ Definition undelegate : script facts :=
   [ is1 "txhash"; pos "amt"; is1 "op";
     pos "amt"; is1 "dl.ex"; is1 "oa.ex";
     Check shares_ok;
-    Check (fun s => shares_from (fget "amt" s) s <=? fget "dl.share" s);
+    Check und_within;
     Check (fun s => tshare s <=? fget "dl.share" s);                    (* share after the dust adjustment *)
     Check (fun s => 0 <? tshare s);                                     (* RemoveShare: share positive *)
     Check (fun s => tshare s <=? fget "oa.share" s);
@@ -392,13 +402,22 @@ Definition oracle_msg (i : Z) : script facts :=
 Definition oracle_tx : script facts :=
   [ is1 "ante.ok" ] ++ oracle_msg 0 ++ oracle_msg 1 ++ oracle_msg 2.
 
+(* x/oracle MsgUpdateParams transactions (1-2 messages): an accepted message stores the new params and pushes them into
+   the in-memory cache (cs.AddCache(ItemP)); the aggregator context's own params are only replaced at EndBlock. The
+   memory dump is reported in three classes: oracle-mem/agc-params, oracle-mem/agc, oracle-mem/cache. *)
+Definition oracle_params_msg (i : Z) : script facts :=
+  [ Check (fun s => negb (fget "fail.idx" s =? i));
+    Write "oracle-mem/cache" (fun s => i <? fget "n" s) (fun s => s) ].
+Definition oracle_params_tx : script facts :=
+  [ is1 "ante.ok" ] ++ oracle_params_msg 0 ++ oracle_params_msg 1.
+
 (* ---- entry points and how the code wraps them ---- *)
 Inductive mode := MPrecompile | MCached | MMsg | MTxMem.
 Inductive op_kind :=
 | DepositLST | WithdrawLST | DepositNST | WithdrawNST | Delegate | Undelegate | Associate | Dissociate
 | RegisterToken | UpdateToken | RegisterClientChain
 | Slash | MsgRegisterOperator | MsgOptIn | MsgOptOut | EndBlockUndelegation | NSTBalanceChange
-| AvsRegister | AvsDeregister | AvsOptIn | AvsOptOut | AvsCreateTask | OracleTx.
+| AvsRegister | AvsDeregister | AvsOptIn | AvsOptOut | AvsCreateTask | OracleTx | OracleParamsTx.
 
 Definition script_of (k : op_kind) : script facts :=
   match k with
@@ -415,6 +434,7 @@ Definition script_of (k : op_kind) : script facts :=
   | AvsRegister => avs_register | AvsDeregister => avs_deregister
   | AvsOptIn => avs_opt_in | AvsOptOut => avs_opt_out | AvsCreateTask => avs_create_task
   | OracleTx => oracle_tx
+  | OracleParamsTx => oracle_params_tx
   end.
 
 (* the wrapper the (repaired) code puts around each entry point *)
@@ -427,7 +447,7 @@ Definition mode_of (k : op_kind) : mode :=
   | EndBlockUndelegation => MCached
   | NSTBalanceChange => MCached                                       (* fix-c09-nst-balance-change-atomic *)
   | AvsRegister | AvsDeregister | AvsOptIn | AvsOptOut | AvsCreateTask => MPrecompile
-  | OracleTx => MTxMem                                                (* store reverted, memory not *)
+  | OracleTx | OracleParamsTx => MTxMem                               (* store reverted, memory not *)
   end.
 
 (* locals computed once from the pre-state *)
